@@ -219,6 +219,10 @@ func (p *Prog) methodRefs(fn *ssa.Function) []ssa.Instruction {
 				if g, ok := x.Fn.(*ssa.Function); ok && g.Synthetic != "" && g.Object() == fn.Object() && fn.Object() != nil {
 					out = append(out, in)
 				}
+				// fn is itself a function literal: the place where it is made is its (only) reference
+				if g, ok := x.Fn.(*ssa.Function); ok && g == fn {
+					out = append(out, in)
+				}
 			case ssa.CallInstruction:
 				if staticCallee(x) == fn {
 					out = append(out, in)
